@@ -168,6 +168,7 @@ type atAnalysis struct {
 	startFns map[string]bool
 	lifeFns  map[string]bool
 	litCount map[string]int
+	freshRet map[string]bool // functions whose first result is always nil or an object freshly built inside them
 }
 
 func recvStruct(fd *ast.FuncDecl) string {
@@ -648,32 +649,7 @@ func (a *atAnalysis) trackFresh(as *ast.AssignStmt, c *walkCtx) {
 	if !ok || id.Name == "_" {
 		return
 	}
-	r := as.Rhs[0]
-	fresh := false
-	if u, ok := r.(*ast.UnaryExpr); ok && u.Op == token.AND {
-		r = u.X
-	}
-	switch y := r.(type) {
-	case *ast.CompositeLit:
-		if tid, ok := y.Type.(*ast.Ident); ok && a.targets[tid.Name] {
-			fresh = true
-		}
-	case *ast.CallExpr:
-		if fid, ok := y.Fun.(*ast.Ident); ok {
-			if fid.Name == "new" && len(y.Args) == 1 {
-				if tid, ok := y.Args[0].(*ast.Ident); ok && a.targets[tid.Name] {
-					fresh = true
-				}
-			} else if strings.HasPrefix(strings.ToLower(fid.Name), "new") {
-				if fd, ok := a.funcs[fid.Name]; ok && fd.Type.Results != nil && len(fd.Type.Results.List) > 0 {
-					rt := strings.TrimPrefix(nodeText(a.p, fd.Type.Results.List[0].Type), "*")
-					if a.targets[rt] {
-						fresh = true
-					}
-				}
-			}
-		}
-	}
+	fresh := a.freshExpr(as.Rhs[0])
 	if fresh {
 		if _, seen := c.locals[id.Name]; !seen {
 			until := firstSpawn(c.decl, a)
@@ -681,6 +657,119 @@ func (a *atAnalysis) trackFresh(as *ast.AssignStmt, c *walkCtx) {
 				until = e
 			}
 			c.locals[id.Name] = until
+		}
+	}
+}
+
+// freshExpr: the expression builds a new object of a target struct: &S{..}, S{..}, new(S), a call of
+// an in-package New*/new* function returning (a pointer to) a target struct, or a call of a function
+// known to return only objects it has freshly built (freshRet).
+func (a *atAnalysis) freshExpr(r ast.Expr) bool {
+	if u, ok := r.(*ast.UnaryExpr); ok && u.Op == token.AND {
+		r = u.X
+	}
+	switch y := r.(type) {
+	case *ast.CompositeLit:
+		if tid, ok := y.Type.(*ast.Ident); ok && a.targets[tid.Name] {
+			return true
+		}
+	case *ast.CallExpr:
+		if fid, ok := y.Fun.(*ast.Ident); ok {
+			if fid.Name == "new" && len(y.Args) == 1 {
+				if tid, ok := y.Args[0].(*ast.Ident); ok && a.targets[tid.Name] {
+					return true
+				}
+			} else if strings.HasPrefix(strings.ToLower(fid.Name), "new") {
+				if fd, ok := a.funcs[fid.Name]; ok && a.firstResultIsTarget(fd) {
+					return true
+				}
+			}
+		}
+		if n, _ := a.calleeName(y); n != "" && a.freshRet[n] {
+			return true
+		}
+	}
+	return false
+}
+
+func (a *atAnalysis) firstResultIsTarget(fd *ast.FuncDecl) bool {
+	if fd.Type.Results == nil || len(fd.Type.Results.List) == 0 {
+		return false
+	}
+	rt := strings.TrimPrefix(nodeText(a.p, fd.Type.Results.List[0].Type), "*")
+	return a.targets[rt]
+}
+
+// computeFreshRet finds the functions that only ever return nil or a local that was :=-bound to a
+// fresh object inside them (e.g. fileConfig.reloadAndStore returning the config it has just built).
+func (a *atAnalysis) computeFreshRet() {
+	a.freshRet = map[string]bool{}
+	for round := 0; round < 4; round++ {
+		changed := false
+		for n, fd := range a.funcs {
+			if a.freshRet[n] || !a.firstResultIsTarget(fd) {
+				continue
+			}
+			freshVars := map[string]bool{}
+			reassigned := map[string]bool{}
+			ast.Inspect(fd.Body, func(nd ast.Node) bool {
+				if _, isLit := nd.(*ast.FuncLit); isLit {
+					return false
+				}
+				as, ok := nd.(*ast.AssignStmt)
+				if !ok || len(as.Lhs) == 0 || len(as.Rhs) == 0 {
+					return true
+				}
+				id, ok := as.Lhs[0].(*ast.Ident)
+				if !ok {
+					return true
+				}
+				if as.Tok == token.DEFINE && a.freshExpr(as.Rhs[0]) && !freshVars[id.Name] {
+					freshVars[id.Name] = true
+				} else if freshVars[id.Name] {
+					reassigned[id.Name] = true
+				}
+				return true
+			})
+			ok, any := true, false
+			ast.Inspect(fd.Body, func(nd ast.Node) bool {
+				if _, isLit := nd.(*ast.FuncLit); isLit {
+					return false
+				}
+				rs, isRet := nd.(*ast.ReturnStmt)
+				if !isRet {
+					return true
+				}
+				if len(rs.Results) == 0 {
+					ok = false // named results: not analysed
+					return true
+				}
+				switch x := rs.Results[0].(type) {
+				case *ast.Ident:
+					if x.Name == "nil" {
+						return true
+					}
+					if freshVars[x.Name] && !reassigned[x.Name] {
+						any = true
+						return true
+					}
+					ok = false
+				default:
+					if a.freshExpr(rs.Results[0]) {
+						any = true
+					} else {
+						ok = false
+					}
+				}
+				return true
+			})
+			if ok && any {
+				a.freshRet[n] = true
+				changed = true
+			}
+		}
+		if !changed {
+			break
 		}
 	}
 }
@@ -953,6 +1042,7 @@ func accessTable(it Item) (string, error) {
 			a.lifeFns[n] = true
 		}
 	}
+	a.computeFreshRet()
 	// walk
 	for _, n := range names {
 		fd := a.funcs[n]
